@@ -71,3 +71,56 @@ func withErrRules(chk func(*core.Ctx, *core.Ledger), side string, rels ...string
 		checkErrKeep(c, l, "ERR-KEEP", rels)
 	}
 }
+
+// extraRules: small rules added after the surveys and later seed rounds, run
+// after a property's own rules (properties wrapped by withErrRules).
+// RunExtra runs the extra rules of the ledger's property (called by the driver after the property's check).
+func RunExtra(c *core.Ctx, l *core.Ledger) {
+	for _, extra := range extraRules[l.Prop] {
+		extra(c, l)
+	}
+}
+
+var extraRules = map[string][]func(*core.Ctx, *core.Ledger){
+	"C01": {
+		func(c *core.Ctx, l *core.Ledger) { checkUnsafeLen(c, l, "UNSAFE-LEN", []string{"wire", "protocol/binary"}) },
+	},
+	"C02": {
+		func(c *core.Ctx, l *core.Ledger) { checkUnsafeLen(c, l, "UNSAFE-LEN", []string{"wire", "protocol/binary"}) },
+		func(c *core.Ctx, l *core.Ledger) { checkStopExact(c, l, "STOP-EXACT") },
+		func(c *core.Ctx, l *core.Ledger) { checkPools(c, l) },
+	},
+	"C03": {
+		func(c *core.Ctx, l *core.Ledger) { checkStopExact(c, l, "STOP-EXACT") },
+	},
+	"C04": {
+		func(c *core.Ctx, l *core.Ledger) { checkUnsafeLen(c, l, "UNSAFE-LEN", []string{"wire", "protocol/binary"}) },
+	},
+	"C05": {
+		func(c *core.Ctx, l *core.Ledger) { checkStopExact(c, l, "STOP-EXACT") },
+		func(c *core.Ctx, l *core.Ledger) {
+			// skipping an unknown container of any size consumes exactly its bytes only if count × width does not wrap
+			sub := core.NewLedger("C03", "quick")
+			d := decodeScope(c, sub)
+			checkWideArith(c, l, core.SortedFuncs(d), func(f *ssa.Function) bool { _, ok := d[f]; return ok })
+		},
+	},
+	"C06": {
+		func(c *core.Ctx, l *core.Ledger) { checkImportName(c, l, "IMPORT-NAME") },
+	},
+	"C07": {
+		func(c *core.Ctx, l *core.Ledger) { checkLookupExact(c, l, "LOOKUP-EXACT") },
+	},
+	"C08": {
+		func(c *core.Ctx, l *core.Ledger) { checkIndexGuard(c, l, "INDEX-GUARD", []string{"idl/internal", "idl"}) },
+	},
+	"C11": {
+		func(c *core.Ctx, l *core.Ledger) { checkPosLookup(c, l, "POS-LOOKUP") },
+	},
+	"C14": {
+		func(c *core.Ctx, l *core.Ledger) { checkHashGetter(c, l, "HASH-KEY") },
+	},
+	"C19": {
+		func(c *core.Ctx, l *core.Ledger) { checkExceptionsPath(c, l, "REQUEST") },
+	},
+}
